@@ -7,6 +7,7 @@ import (
 	"fmt"
 	"strings"
 	"testing"
+	"time"
 
 	"github.com/fabiolb/fabio/zzverif/ev"
 )
@@ -15,12 +16,28 @@ import (
 // process: NewTable / NewTableCustom return a table or an error, and a returned
 // table answers lookups with both pickers and all matchers without panicking.
 
-var c02Weights = []string{"", "0", "0.3", "1", "2", "-1", "Inf", "+Inf", "-Inf", "NaN", "1e308", "1.7976931348623157e308", "1e-320", "5e-324", "1e400", "0x1p-1074", "abc", "1e-7", "9999999"}
+var c02Weights = []string{"", "0", "0.3", "1", "2", "-1", "-0.3", "-0.8", "-1e308", "Inf", "+Inf", "-Inf", "NaN", "1e308", "1.7976931348623157e308", "1e-320", "5e-324", "1e400", "0x1p-1074", "abc", "1e-7", "9999999"}
 var c02Paths = []string{"/", "/a", "/[", "/{a", "**", "/a/*", "/[a-", "/\\"}
 var c02Dsts = []string{"http://10.0.0.1:80/", "http://[::1/", "%zz", "http://h/%zz", "tcp://:80", "://", "https://h$path"}
 var c02Opts = []string{"", "redirect=abc", "redirect=999", "redirect=301", "allow=ip:x", "allow=ip:10.0.0.0/33", "deny=ip:1.2.3.4", "strip=/a", "host=dst", "proto=https host=x", "allow", "=", "auth=nope", "allow=ip:10.0.0.0/8 deny=ip:1.1.1.1"}
 
+// c02Exercise runs one text under a watchdog: a build or lookup that does not
+// come back within 30 s is a violation ("never crashes" includes never hanging
+// the update loop); the stuck goroutine is abandoned.
 func c02Exercise(L *ev.Layer, text string, build func() (Table, error), sigBase string) {
+	done := make(chan struct{})
+	go func() {
+		defer close(done)
+		c02ExerciseInner(L, text, build, sigBase)
+	}()
+	select {
+	case <-done:
+	case <-time.After(30 * time.Second):
+		L.Violation(sigBase+"/does-not-terminate", map[string]interface{}{"config": strings.Split(text, "\n")})
+	}
+}
+
+func c02ExerciseInner(L *ev.Layer, text string, build func() (Table, error), sigBase string) {
 	L.Case()
 	var tbl Table
 	var err error
@@ -155,6 +172,12 @@ func TestVerifC02Text(t *testing.T) {
 		if w == "" {
 			continue
 		}
+		// a negative / extreme weight next to targets with a positive fixed weight
+		for _, other := range []string{"0.5", "1", "0.0001"} {
+			fixedBase := "route add sa /p http://a:80/ tags \"x\"\nroute add sb /p http://c:80/ weight " + other + "\nroute add sc /p http://d:80/ weight 0.2\n"
+			jobs = append(jobs, fixedBase+"route weight sa /p weight "+w+"\n")
+			jobs = append(jobs, fixedBase+"route weight sb /p weight "+w+"\n")
+		}
 		base := "route add sa /p http://a:80/ tags \"x\"\nroute add sa /p http://b:80/ tags \"x,y\"\nroute add sb /p http://c:80/\n"
 		jobs = append(jobs, base+"route weight sa /p weight "+w+"\n")
 		jobs = append(jobs, base+"route weight sa /p weight "+w+" tags \"y\"\n")
@@ -183,6 +206,8 @@ func TestVerifC02Text(t *testing.T) {
 		`[{"cmd":"route add","service":"s","src":"/p","dst":"http://h/","weight":1e-320},{"cmd":"route add","service":"t","src":"/p","dst":"http://g/","weight":1e-320}]`,
 		`[{"cmd":"route add","service":"s","src":"/p","dst":"http://h/","weight":-5}]`,
 		`[{"cmd":"route weight","service":"s","src":"/p","weight":1}]`,
+		`[{"cmd":"route add","service":"a","src":"/p","dst":"http://h/","weight":0.5},{"cmd":"route add","service":"b","src":"/p","dst":"http://g/"},{"cmd":"route weight","service":"b","src":"/p","weight":-0.8}]`,
+		`[{"cmd":"route add","service":"a","src":"/p","dst":"http://h/","weight":0.5},{"cmd":"route add","service":"b","src":"/p","dst":"http://g/"},{"cmd":"route weight","service":"b","src":"/p","weight":-0.3}]`,
 		`[{"cmd":"route del","service":"s"}]`,
 		`[{"cmd":"route add","service":"s","src":"/p","dst":"http://h/","opts":{"redirect":"301","allow":"ip:zz"}}]`,
 		`[{"cmd":"route add","service":"s","src":"/p","dst":"%zz"}]`} {
